@@ -322,8 +322,10 @@ theorem minPt_eq_value (st : FStore Rat) (x : Nat) : minPt st x = (st x).value.t
 
 /-- **C06 (search, end to end).**  Let `fsolve` return the leaf `leaf` for a model whose declared
 store `st0` is well formed (`GoodK`: float intervals with `min ≤ max`, positive steps) and whose
-propagators only shrink domains (`Shrinks`; proved for `FloatLinLe`, `FloatLinEq` and the branching
-constraints: `shrinks_linLe`, `shrinks_linEq`).  Then, for every pop policy and all fuels:
+propagators only shrink domains (`Shrinks`; proved for ALL float linear propagators — `shrinks_linLe`,
+`shrinks_linEq`, `shrinks_linNe`, and the reified `shrinks_linEqReif/linLeReif/linNeReif` when the
+reification variable is an integer variable — and for the branching constraints; NOT for `leq`/`eq`
+at views that push an integer bound onto a float variable: finding `float-int-bound-inverts-interval`).  Then, for every pop policy and all fuels:
 
 * a float variable is reported (`minPt leaf`, the minimum of its final interval) inside its DECLARED
   bounds, its step is unchanged, and if it is one of the `n` decision variables its final interval
